@@ -403,6 +403,7 @@ def run(repo: Repo, ctx) -> None:
     _r6(repo, ctx)
     _r7(repo, ctx)
     _r8(repo, ctx)
+    _r9(repo, ctx)
 
 
 ZERO_LOWER = ('AT_MOST_ONE', 'MANY')
@@ -1026,3 +1027,37 @@ def _r8(repo: Repo, ctx) -> None:
            f'exclusive across subtypes, and a backlink / path through the '
            f'abstract type is reported AT_MOST_ONE / UNIQUE wrongly',
            ie.loc, sample=sorted(filt))
+
+
+
+def _r9(repo: Repo, ctx) -> None:
+    """C06.R9 a filter on a multi-hop path narrows the result to one object
+    only when every hop identifies one object.  `extract_exclusive_filters`
+    checks the first hop against the pointer's own / the object's exclusive
+    constraints and all the *following* hops through `_all_have_exclusive`:
+    the hops handed to it have to run to the end of the path (a slice with
+    no upper bound that starts at the first or second hop)."""
+    ctx.floor('C06.R9', 1)
+    f = repo.func(f'{CARD}.extract_exclusive_filters')
+    ctx.saw(f)
+    n = 0
+    for c in ast.walk(f.node):
+        if isinstance(c, ast.Call) and call_name(c) == '_all_have_exclusive' \
+                and c.args and isinstance(c.args[0], ast.Subscript) and \
+                isinstance(c.args[0].slice, ast.Slice):
+            sl = c.args[0].slice
+            n += 1
+            lo = sl.lower.value if isinstance(sl.lower, ast.Constant) else (
+                0 if sl.lower is None else None)
+            ok = sl.upper is None and sl.step is None and lo in (0, 1)
+            ctx.ob('C06.R9', 'extract_exclusive_filters:trailing-hops', ok,
+                   f'the hops of a filter path that must be exclusive are '
+                   f'taken as `{norm(c.args[0])}`: the last hop (or more) '
+                   f'is not required to be exclusive, so `.best_friend.nick '
+                   f'= ..` with a non-exclusive `nick` is reported as '
+                   f'selecting at most one object',
+                   f'{f.module.rel()}:{c.lineno}',
+                   sample=norm(c.args[0]))
+    if not n:
+        raise AnalysisError('C06.R9: the trailing-hops test of '
+                            'extract_exclusive_filters not found')
